@@ -38,7 +38,7 @@ def cases(draw, max_taxa, max_trees, ultrametric=False):
     return {"sample": s, "use_w": draw(st.booleans()),
             "thr_kind": draw(st.sampled_from(["exact", "mid", "float", "default", "low", "one"])),
             "thr_sel": draw(st.integers(0, 50)), "thr_f": draw(st.floats(min_value=0.02, max_value=1.0, allow_nan=False)),
-            "route": draw(st.sampled_from(["treearray", "treelist", "splitdist"])),
+            "route": draw(st.sampled_from(["treearray", "treelist", "splitdist"])), "summaries_first": draw(st.booleans()),
             "target": {"kind": draw(st.sampled_from(["member", "neighbour", "indep"])), "sel": draw(st.integers(0, 50)),
                        "nni": [draw(st.integers(0, 30)), draw(st.integers(0, 3)), draw(st.integers(0, 3))],
                        "spec": draw(shapes.shapes(min_leaves=s["n"], max_leaves=s["n"], max_arity=3))},
@@ -48,7 +48,7 @@ def cases(draw, max_taxa, max_trees, ultrametric=False):
 
 
 def pick_threshold(case, freqs_nt):
-    vals = sorted(set(float(f) for f in freqs_nt))
+    vals = sorted(set(float(f) for f in freqs_nt if f > 0))  # thresholds live in (0, 1]
     kind = case["thr_kind"]
     if kind == "default" or (not vals and kind in ("exact", "mid")):
         return None
@@ -77,7 +77,9 @@ def make_collection(case, ns, trees, route, ignore_node_ages=True):
         for k, t in enumerate(trees):
             ta.add_tree(t)
             if k == 0:
-                ta.split_distribution.split_frequencies  # query between additions: later answers must not be stale
+                # query and summarise between additions: later answers must not be stale
+                ta.split_distribution.split_frequencies
+                ta.consensus_tree()
         return ta, ta.split_distribution
     tl = dendropy.TreeList(taxon_namespace=ns)
     for t in trees:
@@ -89,6 +91,7 @@ def make_collection(case, ns, trees, route, ignore_node_ages=True):
         sd.count_splits_on_tree(t)
         if k == 0:
             sd[1]
+            sd.consensus_tree()
     return sd, sd
 
 
@@ -128,122 +131,137 @@ def check_case(ctx, case):
     nt = dict((k, f) for k, f in freqs.items() if samples.is_nontrivial(k, n, rooted))
     thr = pick_threshold(case, nt.values())
     thr_eff = constants.GREATER_THAN_HALF if thr is None else thr
-    # ---- clause 2: consensus ------------------------------------------------------------------------
-    kw = {} if thr is None else {"min_freq": thr}
-    if route == "treearray":
-        con = ctx.call("C05.consensus", coll.consensus_tree, **kw)
-    elif route == "treelist":
-        con = ctx.call("C05.consensus", coll.consensus, use_tree_weights=case["use_w"], **kw)
-    else:
-        con = ctx.call("C05.consensus", sd.consensus_tree, **kw)
-    crt = treechecks.wellformed(ctx, con, "consensus_well_formed", "C05.consensus_wellformed", tag)
-    lt = sorted(str(crt.taxon[i]) for i in crt.leaves())
-    ctx.check(lt == sorted(full), "consensus_spans_every_taxon_once", "C05.consensus_spans", lambda: "%r; %s" % (lt, tag))
-    want_rooting = rooted_flag
-    ctx.check(con.is_rooted is want_rooting or (want_rooting is None and not con.is_rooted), "consensus_rooting_state",
-              "C05.consensus_rooting", lambda: "consensus is_rooted=%r inputs %r" % (con.is_rooted, rooted_flag))
-    if lt == sorted(full):
-        got_keys = samples.tree_keys(crt, rooted)
-        eligible = set(k for k, f in nt.items() if float(f) >= thr_eff)
-        d = lambda: "threshold=%r consensus=%s got=%s eligible=%s freqs=%s; %s" % (
-            thr_eff, crt.canon(), sorted(map(fmt, got_keys)), sorted(map(fmt, eligible)),
-            sorted((fmt(k), str(f)) for k, f in nt.items()), tag)
-        ctx.check(got_keys <= eligible, "consensus_contains_only_splits_reaching_threshold", "C05.consensus_only", d)
-        if thr_eff > 0.5:
-            ctx.check(got_keys == eligible, "majority_consensus_contains_all_and_only", "C05.consensus_majority", d)
+    def clause_consensus():
+        # ---- clause 2: consensus ------------------------------------------------------------------------
+        kw = {} if thr is None else {"min_freq": thr}
+        if route == "treearray":
+            con = ctx.call("C05.consensus", coll.consensus_tree, **kw)
+        elif route == "treelist":
+            con = ctx.call("C05.consensus", coll.consensus, use_tree_weights=case["use_w"], **kw)
         else:
-            for e in eligible - got_keys:
-                conflicts = [i for i in got_keys if not samples.compatible(e, i, full, rooted)]
-                ctx.check(bool(conflicts), "consensus_maximal", "C05.consensus_maximal", lambda: "excluded %s compatible with all included; %s" % (fmt(e), d()))
-                ctx.check(any(nt[i] >= nt[e] for i in conflicts), "consensus_greedy_by_frequency", "C05.consensus_greedy",
-                          lambda: "excluded %s (f=%s) only conflicts with less frequent included splits; %s" % (fmt(e), nt[e], d()))
-            ctx.cls("consensus:low_threshold")
-        if eligible and (set(nt) - eligible):
-            ctx.cls("threshold_separates_splits")
-            if len(rts) >= 3 and len(set(rt.canon() for rt in rts)) >= 2:
-                ctx.nontrivial([sample, case["use_w"], thr, route])
+            con = ctx.call("C05.consensus", sd.consensus_tree, **kw)
+        crt = treechecks.wellformed(ctx, con, "consensus_well_formed", "C05.consensus_wellformed", tag)
+        lt = sorted(str(crt.taxon[i]) for i in crt.leaves())
+        ctx.check(lt == sorted(full), "consensus_spans_every_taxon_once", "C05.consensus_spans", lambda: "%r; %s" % (lt, tag))
+        want_rooting = rooted_flag
+        ctx.check(con.is_rooted is want_rooting or (want_rooting is None and not con.is_rooted), "consensus_rooting_state",
+                  "C05.consensus_rooting", lambda: "consensus is_rooted=%r inputs %r" % (con.is_rooted, rooted_flag))
+        if lt == sorted(full):
+            got_keys = samples.tree_keys(crt, rooted)
+            eligible = set(k for k, f in nt.items() if float(f) >= thr_eff)
+            d = lambda: "threshold=%r consensus=%s got=%s eligible=%s freqs=%s; %s" % (
+                thr_eff, crt.canon(), sorted(map(fmt, got_keys)), sorted(map(fmt, eligible)),
+                sorted((fmt(k), str(f)) for k, f in nt.items()), tag)
+            ctx.check(got_keys <= eligible, "consensus_contains_only_splits_reaching_threshold", "C05.consensus_only", d)
+            if thr_eff > 0.5:
+                ctx.check(got_keys == eligible, "majority_consensus_contains_all_and_only", "C05.consensus_majority", d)
+            else:
+                for e in eligible - got_keys:
+                    conflicts = [i for i in got_keys if not samples.compatible(e, i, full, rooted)]
+                    ctx.check(bool(conflicts), "consensus_maximal", "C05.consensus_maximal", lambda: "excluded %s compatible with all included; %s" % (fmt(e), d()))
+                    ctx.check(any(nt[i] >= nt[e] for i in conflicts), "consensus_greedy_by_frequency", "C05.consensus_greedy",
+                              lambda: "excluded %s (f=%s) only conflicts with less frequent included splits; %s" % (fmt(e), nt[e], d()))
+                ctx.cls("consensus:low_threshold")
+            if eligible and (set(nt) - eligible):
+                ctx.cls("threshold_separates_splits")
+                if len(rts) >= 3 and len(set(rt.canon() for rt in rts)) >= 2:
+                    ctx.nontrivial([sample, case["use_w"], thr, route])
 
-    # ---- clause 3: summaries on a target tree ------------------------------------------------------------
-    tg = case["target"]
-    if tg["kind"] == "member":
-        trt = rts[tg["sel"] % len(rts)].copy()
-    elif tg["kind"] == "neighbour":
-        trt = samples.nni(rts[tg["sel"] % len(rts)], *tg["nni"])
-    else:
-        trt = RefTree.from_spec(tg["spec"])
-        for k, i in enumerate(trt.preorder()):
-            trt.length[i] = None if i == trt.root else 0.5 + k / 8.0
-    target = shapes.build_tree(samples.spec_of(trt), ns, taxa, is_rooted=rooted_flag)
-    st_ = case["settings"]
-    skw = {"support_as_percentages": st_["pct"], "set_support_as_node_label": st_["label"], "support_label_decimals": st_["decimals"]}
-    if st_["sel"] is not None:
-        skw["set_edge_lengths"] = st_["sel"]
-    if route == "treearray":
-        ctx.call("C05.summarize", coll.summarize_splits_on_tree, target, **skw)
-    else:
-        ctx.call("C05.summarize", sd.summarize_splits_on_tree, target, **skw)
-    srt = treechecks.wellformed(ctx, target, "summarized_tree_well_formed", "C05.summarize_wellformed", tag)
-    tkeys = {}
-    scl = srt.clusters()
-    for i in srt.nodes():
-        a = scl[i]
-        if rooted:
-            tkeys[i] = a
+        return crt
+
+    def clause_summaries():
+        # ---- clause 3: summaries on a target tree ------------------------------------------------------------
+        tg = case["target"]
+        if tg["kind"] == "member":
+            trt = rts[tg["sel"] % len(rts)].copy()
+        elif tg["kind"] == "neighbour":
+            trt = samples.nni(rts[tg["sel"] % len(rts)], *tg["nni"])
         else:
-            b = full - a
-            tkeys[i] = frozenset([a, b]) if a and b else None
-    for i in srt.nodes():
-        nd = srt.obj[i]
-        k = tkeys[i]
-        if k is None:
-            continue  # root edge of an unrooted tree
-        f = float(freqs.get(k, 0))
-        want = f * 100 if st_["pct"] else f
-        got = getattr(nd, "support", None)
-        ctx.check(got == want, "node_support_is_split_frequency", "C05.support",
-                  lambda: "node over %s support %r want %r; %s" % (fmt(k), got, want, tag))
-        if st_["label"]:
-            wl = "{:.{places}f}".format(want, places=st_["decimals"])
-            ctx.check(nd.label == wl, "support_label_text", "C05.support_label", lambda: "label %r want %r" % (nd.label, wl))
-        vals = lens.get(k)
-        if vals and i != srt.root and all(v is not None for v in vals):
-            e = nd.edge
-            scale = max(abs(v) for v in vals)
-            chk = [("length_mean", samples.ref_mean(vals), TOL), ("length_median", samples.ref_median(vals), TOL)]
-            for name, wv, tol in chk:
-                gv = getattr(e, name, None)
-                ctx.check(isinstance(gv, (int, float)) and abs(gv - wv) <= tol * (1 + scale), "edge_length_summary", "C05.edge_summary:" + name,
-                          lambda: "split %s values %r: %s=%r want %r; %s" % (fmt(k), vals, name, gv, wv, tag))
-            gr = getattr(e, "length_range", None)
-            ctx.check(gr is not None and tuple(gr) == (min(vals), max(vals)), "edge_length_range", "C05.edge_summary:length_range",
-                      lambda: "range %r want %r" % (gr, (min(vals), max(vals))))
-            gs = getattr(e, "length_sd", None)
-            ctx.check(isinstance(gs, (int, float)) and not isinstance(gs, bool) and (len(vals) == 1 or math.isfinite(gs)) and gs == gs,
-                      "edge_length_sd_is_real_number", "C05.edge_summary:sd_real", lambda: "sd=%r for values %r" % (gs, vals))
-            if len(vals) >= 2 and isinstance(gs, (int, float)):
-                ws = samples.ref_sample_sd(vals)
-                ctx.check(abs(gs - ws) <= 1e-6 * (1 + scale), "edge_length_sd", "C05.edge_summary:length_sd",
-                          lambda: "sd %r want %r values %r" % (gs, ws, vals))
-            if st_["sel"] == "mean-length":
-                ctx.check(abs(e.length - samples.ref_mean(vals)) <= TOL * (1 + scale), "edge_length_set_to_mean", "C05.set_edge_lengths:mean")
-            elif st_["sel"] == "median-length":
-                ctx.check(abs(e.length - samples.ref_median(vals)) <= TOL * (1 + scale), "edge_length_set_to_median", "C05.set_edge_lengths:median")
-        if st_["sel"] == "support" and i != srt.root:
-            ctx.check(nd.edge.length == want, "edge_length_set_to_support", "C05.set_edge_lengths:support")
-        if ultra and i != srt.root:
-            ages = [ages_of(rt)[k] for rt in rts if k in ages_of(rt)]
-            if ages:
-                scale = max(abs(v) for v in ages) if ages else 1.0
-                for name, wv in (("age_mean", samples.ref_mean(ages)), ("age_median", samples.ref_median(ages))):
-                    gv = getattr(nd, name, None)
-                    ctx.check(isinstance(gv, (int, float)) and abs(gv - wv) <= TOL * (1 + scale), "node_age_summary", "C05.age_summary:" + name,
-                              lambda: "split %s ages %r: %s=%r want %r; %s" % (fmt(k), ages, name, gv, wv, tag))
-                gr = getattr(nd, "age_range", None)
-                ctx.check(gr is not None and abs(gr[0] - min(ages)) <= TOL * (1 + scale) and abs(gr[1] - max(ages)) <= TOL * (1 + scale),
-                          "node_age_range", "C05.age_summary:age_range", lambda: "%r vs %r" % (gr, (min(ages), max(ages))))
-                ctx.cls("age_summaries_checked")
-    ctx.cls("target:%s" % tg["kind"])
-    ctx.cls("settings:%s" % st_["sel"])
+            trt = RefTree.from_spec(tg["spec"])
+            for k, i in enumerate(trt.preorder()):
+                trt.length[i] = None if i == trt.root else 0.5 + k / 8.0
+        target = shapes.build_tree(samples.spec_of(trt), ns, taxa, is_rooted=rooted_flag)
+        st_ = case["settings"]
+        skw = {"support_as_percentages": st_["pct"], "set_support_as_node_label": st_["label"], "support_label_decimals": st_["decimals"]}
+        if st_["sel"] is not None:
+            skw["set_edge_lengths"] = st_["sel"]
+        if route == "treearray":
+            ctx.call("C05.summarize", coll.summarize_splits_on_tree, target, **skw)
+        else:
+            ctx.call("C05.summarize", sd.summarize_splits_on_tree, target, **skw)
+        srt = treechecks.wellformed(ctx, target, "summarized_tree_well_formed", "C05.summarize_wellformed", tag)
+        tkeys = {}
+        scl = srt.clusters()
+        for i in srt.nodes():
+            a = scl[i]
+            if rooted:
+                tkeys[i] = a
+            else:
+                b = full - a
+                tkeys[i] = frozenset([a, b]) if a and b else None
+        for i in srt.nodes():
+            nd = srt.obj[i]
+            k = tkeys[i]
+            if k is None:
+                continue  # root edge of an unrooted tree
+            f = float(freqs.get(k, 0))
+            want = f * 100 if st_["pct"] else f
+            got = getattr(nd, "support", None)
+            ctx.check(got == want, "node_support_is_split_frequency", "C05.support",
+                      lambda: "node over %s support %r want %r; %s" % (fmt(k), got, want, tag))
+            if st_["label"]:
+                wl = "{:.{places}f}".format(want, places=st_["decimals"])
+                ctx.check(nd.label == wl, "support_label_text", "C05.support_label", lambda: "label %r want %r" % (nd.label, wl))
+            vals = lens.get(k)
+            if vals and i != srt.root and all(v is not None for v in vals):
+                e = nd.edge
+                scale = max(abs(v) for v in vals)
+                chk = [("length_mean", samples.ref_mean(vals), TOL), ("length_median", samples.ref_median(vals), TOL)]
+                for name, wv, tol in chk:
+                    gv = getattr(e, name, None)
+                    ctx.check(isinstance(gv, (int, float)) and abs(gv - wv) <= tol * (1 + scale), "edge_length_summary", "C05.edge_summary:" + name,
+                              lambda: "split %s values %r: %s=%r want %r; %s" % (fmt(k), vals, name, gv, wv, tag))
+                gr = getattr(e, "length_range", None)
+                ctx.check(gr is not None and tuple(gr) == (min(vals), max(vals)), "edge_length_range", "C05.edge_summary:length_range",
+                          lambda: "range %r want %r" % (gr, (min(vals), max(vals))))
+                gs = getattr(e, "length_sd", None)
+                ctx.check(isinstance(gs, (int, float)) and not isinstance(gs, bool) and (len(vals) == 1 or math.isfinite(gs)) and gs == gs,
+                          "edge_length_sd_is_real_number", "C05.edge_summary:sd_real", lambda: "sd=%r for values %r" % (gs, vals))
+                if len(vals) >= 2 and isinstance(gs, (int, float)):
+                    ws = samples.ref_sample_sd(vals)
+                    ctx.check(abs(gs - ws) <= 1e-6 * (1 + scale), "edge_length_sd", "C05.edge_summary:length_sd",
+                              lambda: "sd %r want %r values %r" % (gs, ws, vals))
+                if st_["sel"] == "mean-length":
+                    ctx.check(abs(e.length - samples.ref_mean(vals)) <= TOL * (1 + scale), "edge_length_set_to_mean", "C05.set_edge_lengths:mean")
+                elif st_["sel"] == "median-length":
+                    ctx.check(abs(e.length - samples.ref_median(vals)) <= TOL * (1 + scale), "edge_length_set_to_median", "C05.set_edge_lengths:median")
+            if st_["sel"] == "support" and i != srt.root:
+                ctx.check(nd.edge.length == want, "edge_length_set_to_support", "C05.set_edge_lengths:support")
+            if ultra and i != srt.root:
+                ages = [ages_of(rt)[k] for rt in rts if k in ages_of(rt)]
+                if ages:
+                    scale = max(abs(v) for v in ages) if ages else 1.0
+                    for name, wv in (("age_mean", samples.ref_mean(ages)), ("age_median", samples.ref_median(ages))):
+                        gv = getattr(nd, name, None)
+                        ctx.check(isinstance(gv, (int, float)) and abs(gv - wv) <= TOL * (1 + scale), "node_age_summary", "C05.age_summary:" + name,
+                                  lambda: "split %s ages %r: %s=%r want %r; %s" % (fmt(k), ages, name, gv, wv, tag))
+                    gr = getattr(nd, "age_range", None)
+                    ctx.check(gr is not None and abs(gr[0] - min(ages)) <= TOL * (1 + scale) and abs(gr[1] - max(ages)) <= TOL * (1 + scale),
+                              "node_age_range", "C05.age_summary:age_range", lambda: "%r vs %r" % (gr, (min(ages), max(ages))))
+                    ctx.cls("age_summaries_checked")
+        ctx.cls("target:%s" % tg["kind"])
+        ctx.cls("settings:%s" % st_["sel"])
+
+        return trt
+
+    # the two clauses run in a drawn order: summarising a target directly after trees were added (without an
+    # intervening consensus call) must not be served from caches filled earlier
+    if case.get("summaries_first"):
+        trt = clause_summaries()
+        crt = clause_consensus()
+    else:
+        crt = clause_consensus()
+        trt = clause_summaries()
 
     # ---- clause 4: collapsing weakly supported edges -----------------------------------------------------------
     if trt.all_lengths_present():
@@ -307,7 +325,7 @@ def check_case(ctx, case):
                       lambda: "%s: returned %s; scores %r; argmax %r; %s" % (variant, brt.canon(), scores, argmax, tag))
     ctx.sample(route, {"trees": [rt.canon(ordered=True, lengths=True) for rt in rts], "weights": [rt.weight for rt in rts],
                        "rooted": rooted_flag, "use_tree_weights": case["use_w"], "threshold": thr,
-                       "consensus": crt.canon(), "settings": st_})
+                       "consensus": crt.canon(), "settings": case["settings"]})
 
 
 def ages_of(rt):
